@@ -543,7 +543,29 @@ func (fb *FB) lenLin1(x ssa.Value) Lin {
 		}
 	case *ssa.Call:
 		if b, ok := s.Call.Value.(*ssa.Builtin); ok && b.Name() == "append" {
+			if len(s.Call.Args) == 2 {
+				// len(append(a, b...)) = len(a) + len(b); a non-spread append passes a slice of a fresh array
+				return fb.lenLin(s.Call.Args[0]).add(fb.lenOfOperand(s.Call.Args[1]), 1)
+			}
+			if len(s.Call.Args) == 1 {
+				return fb.lenLin(s.Call.Args[0])
+			}
 			return linSym(lenKey{x})
+		}
+		if callee := s.Call.StaticCallee(); callee != nil && callee.Pkg != nil && callee.Pkg.Pkg.Path() == "encoding/binary" && len(s.Call.Args) >= 2 {
+			// binary.<order>.AppendUintN(b, v) returns b extended by N bytes
+			w := int64(0)
+			switch callee.Name() {
+			case "AppendUint16":
+				w = 2
+			case "AppendUint32":
+				w = 4
+			case "AppendUint64":
+				w = 8
+			}
+			if w > 0 {
+				return fb.lenLin(s.Call.Args[len(s.Call.Args)-2]).add(linConst(w), 1)
+			}
 		}
 		if callee := s.Call.StaticCallee(); callee != nil && callee.Blocks != nil && inModule(fnPkgPath(callee)) && s.Call.Signature().Results().Len() == 1 {
 			if sum, ok := fb.c.lenSummary(callee); ok {
